@@ -1726,6 +1726,8 @@ class SequenceOfAndSetOfBase(base.ConstructedAsn1Type):
         if self._componentValues is noValue:
             return
 
+        myClone.clear()
+
         for idx, componentValue in self._componentValues.items():
             if componentValue is not noValue:
                 if isinstance(componentValue, base.ConstructedAsn1Type):
@@ -2307,7 +2309,10 @@ class SequenceAndSetBase(base.ConstructedAsn1Type):
 
     def _cloneComponentValues(self, myClone, cloneValueFlag):
         if self._componentValues is noValue:
+            myClone.reset()
             return
+
+        myClone.clear()
 
         for idx, componentValue in enumerate(self._componentValues):
             if componentValue is not noValue:
